@@ -15,7 +15,7 @@ CLAIMED = {
              note=TRUST+"bounds: fields <= 3-4 bytes/nibbles, keys 32 bytes, histories as C01 quick; RocksDB model", ref="DESIGN.md §7 C14"),
  "C15": dict(text="every byte string up to a length bound is fed to the state-trie decoder with all bytes symbolic (the solver covers every byte value, the explorer every separator position/length), plus structured near-valid families; for the weighted trie, every value of the CBOR target types within size bounds is fed to DeserializeNode / Deserialize / VerifyBlockProof; the assertion is: returns or errors, never panics, accepted input re-encodes",
              note=TRUST+"bounds: CreateNode inputs <= 25 bytes (thorough 29) for all tags, 33-36 bytes for branch tags, structured families beyond; wmpt: CBOR library itself is trusted (blob model) - arbitrary bytes that the CBOR decoder rejects are one trivial path; termination = instruction budget", ref="DESIGN.md §7 C15"),
- "C19": dict(text="for every leaf count n <= 24 (thorough 64) and every index the real ComputeTree/GetPathByIndex/GetPath/VerifyPath/VerifyMerklePath/SetTree are executed symbolically; the competing leaf hash is a fully symbolic byte string, so rejection is decided by the solver for every other leaf hash (through the injective-hash model)",
+ "C19": dict(text="for every leaf count n <= 24 (thorough 64) and every index the real ComputeTree/GetPathByIndex/GetPath/VerifyPath/VerifyMerklePath/SetTree are executed symbolically; the competing leaf hash is a fully symbolic byte string, so rejection is decided by the solver for every other leaf hash (through the injective-hash model); a path obtained earlier must still verify after the tree handed out another path",
              note=TRUST+"bound n <= 64, not thousands; SHA3 modelled as injective", ref="DESIGN.md §7 C19"),
  "C18": dict(text="bounded symbolic model checking of the real currency helpers: each helper is executed symbolically from go/ssa with full-width 64-bit / IEEE-double operands as solver variables; every assertion (error iff unrepresentable, result exact) is an SMT query decided unsat for all operand values on every path; loop-free code, so the only bound is the machine width",
              note=TRUST+"shopspring/decimal is replaced by an abstract (coefficient, exponent) model, so ParseZCN is checked for its own logic over an arbitrary well-formed decimal (|coeff| < 10^15, exponent -30..30) and the digit generation of decimal.NewFromFloat, ToZCN and the format-then-parse round trip are NOT claimed", ref="DESIGN.md §7 C18"),
